@@ -533,7 +533,7 @@ def stage_system_depfile_entry(rep, rng, thorough):
                     break
             if why and reference_ok(d1)[0] and reference_ok(stem + '.o')[0]:
                 if rep.fail('Make + %s: sources %r, program %r: %s: %s' % (cc, srcs, prog, why, detail[-250:]),
-                            dict(info, why=why, make_output=detail), classes=classify(stem, 'make')):
+                            dict(info, why=why, make_output=detail)):
                     bad += 1
         finally:
             shutil.rmtree(root, ignore_errors=True)
